@@ -1,6 +1,6 @@
 (* C02 — the sealed search equals the specification; the provider's clamp does not change the answer. *)
 From Coq Require Import List Bool Arith NArith Lia Sorting.Sorted Sorting.Permutation.
-From C02 Require Import Model ModelTx ModelSealed ProofsNodes ProofsBorders ProofsIterate ProofsFold ProofsLeaf
+From C02 Require Import Model ModelTx ModelSealed CaseDefs ProofsNodes ProofsBorders ProofsIterate ProofsFold ProofsLeaf
      ProofsSearch ProofsTx3 ProofsSealedIds.
 From C02 Require SealedLids SLCodec SLSearch SLGen SLLids.
 Import ListNotations.
@@ -281,3 +281,25 @@ Section Sealed.
     apply (hist_finish c from to q rev hist tab lids). apply (stream_ids c from to q Hnd Hlen rev lids Ss Si).
   Qed.
 End Sealed.
+
+(* ---------------------------------------------------------------- link to the executable verdicts *)
+#[local] Existing Instance glob_matcher.
+
+Theorem sealed_case_ok ipb cap c from to q rev limit wt hist :
+  1 <= ipb -> 1 <= cap -> Forall ok_doc64 c -> NoDup (map did c) -> N.of_nat (length c) + 1 < two32 ->
+  N.of_nat (length (svocab (table c))) < 4294967295 ->
+  let '(ids, total) := search_spec c q from to rev limit wt in
+  let s := CaseDefs.SQ q q from to rev limit wt hist ids total (hist_spec c q from to hist) in
+  CaseDefs.case_agrees (CaseDefs.CSealed ipb cap c [s]) = true /\
+  CaseDefs.case_spec_ok (CaseDefs.CSealed ipb cap c [s]) = true.
+Proof.
+  intros H1 H2 H3 H4 H5 H6.
+  assert (H3' : Forall ok_doc c) by (rewrite Forall_forall in *; intros d Hd; apply H3; exact Hd).
+  pose proof (search_case_ok c from to q rev limit wt hist H3' H4 H5) as K.
+  pose proof (search_sealed_exact ipb cap c H1 H2 H3 H4 H5 H6 from to q rev limit wt hist) as S.
+  pose proof (hist_sealed_exact ipb cap c H1 H2 H3 H4 H5 H6 from to q rev hist) as Hh.
+  destruct (search_spec c q from to rev limit wt) as [ids total] eqn:E. cbn zeta in *. destruct K as [K1 K2].
+  cbn [CaseDefs.case_agrees CaseDefs.case_spec_ok forallb]. rewrite K1, K2. split; [|reflexivity].
+  unfold CaseDefs.sq_agrees_sealed. unfold search_sealed in S. unfold hist_sealed in Hh. rewrite S, Hh.
+  unfold CaseDefs.sq_spec_ok in K2. rewrite E in K2. rewrite K2. reflexivity.
+Qed.
